@@ -65,11 +65,20 @@ pub struct Cmd {
     /// the reader of the stdout pipe goes away after taking this many bytes (like `kestrel ... | head -c N`)
     #[serde(default)]
     pub stdout_reader_leaves_after: Option<usize>,
+    /// the child's stdin pipe has O_NONBLOCK set (as left behind by some parent programs): a read that finds the pipe
+    /// empty gets EAGAIN instead of waiting; the pauses of `stdin_splits` then become visible to the child
+    #[serde(default)]
+    pub stdin_nonblock: bool,
+    /// stdin is a connected Unix stream socket carrying the StdinSpec bytes (at most ~100 KB, queued before the child
+    /// starts). Some(true): the peer then dies with unread input of its own, so that after the queued bytes the child's
+    /// next read fails once with ECONNRESET and the one after sees end-of-file. Some(false): orderly end of stream.
+    #[serde(default)]
+    pub stdin_socket_reset: Option<bool>,
 }
 
 impl Cmd {
     pub fn new(args: &[&str]) -> Cmd {
-        Cmd { args: args.iter().map(|a| a.as_bytes().to_vec()).collect(), env: vec![], stdin: StdinSpec::Null, stdout_file: None, stdout_closed_pipe: false, stdin_path: None, fsize_limit: None, pty: None, stdin_splits: vec![], stdout_nonblock_slow: None, env_bytes: vec![], stdout_reader_leaves_after: None }
+        Cmd { args: args.iter().map(|a| a.as_bytes().to_vec()).collect(), env: vec![], stdin: StdinSpec::Null, stdout_file: None, stdout_closed_pipe: false, stdin_path: None, fsize_limit: None, pty: None, stdin_splits: vec![], stdout_nonblock_slow: None, env_bytes: vec![], stdout_reader_leaves_after: None, stdin_nonblock: false, stdin_socket_reset: None }
     }
     pub fn env(mut self, k: &str, v: &str) -> Cmd {
         self.env.push((k.to_string(), v.to_string()));
@@ -138,6 +147,8 @@ impl Out {
 
 static DIR_CTR: AtomicU64 = AtomicU64::new(0);
 thread_local! {
+    static SOCK_TO_CLOSE: std::cell::Cell<i32> = const { std::cell::Cell::new(-1) };
+    static NB_STDIN_WRITE_END: std::cell::Cell<i32> = const { std::cell::Cell::new(-1) };
     static PTY_SLAVE_TO_CLOSE: std::cell::Cell<i32> = const { std::cell::Cell::new(-1) };
 }
 
@@ -200,6 +211,44 @@ pub fn run_limit(cmd: &Cmd, cwd: &Path, limit: Duration) -> Out {
         match &cmd.stdin {
             StdinSpec::Null => {
                 c.stdin(Stdio::null());
+            }
+            StdinSpec::Bytes(b) if cmd.stdin_socket_reset.is_some() => {
+                use std::os::unix::io::FromRawFd;
+                let mut fds = [0i32; 2];
+                unsafe {
+                    assert_eq!(libc::socketpair(libc::AF_UNIX, libc::SOCK_STREAM | libc::SOCK_CLOEXEC, 0, fds.as_mut_ptr()), 0);
+                    let (ours, theirs) = (fds[0], fds[1]);
+                    // one byte into OUR receive queue, never read: closing with unread input resets the connection
+                    libc::write(theirs, b"?".as_ptr() as *const libc::c_void, 1);
+                    let mut off = 0usize;
+                    while off < b.len() {
+                        let n = libc::write(ours, b[off..].as_ptr() as *const libc::c_void, b.len() - off);
+                        if n <= 0 {
+                            crate::report::machinery("socket stdin: could not queue the input (too large for the socket buffer)");
+                        }
+                        off += n as usize;
+                    }
+                    if cmd.stdin_socket_reset == Some(true) {
+                        libc::close(ours);
+                    } else {
+                        let mut one = [0u8; 1];
+                        libc::read(ours, one.as_mut_ptr() as *mut libc::c_void, 1);
+                        libc::shutdown(ours, libc::SHUT_WR);
+                        SOCK_TO_CLOSE.with(|w| w.set(ours));
+                    }
+                    c.stdin(Stdio::from_raw_fd(theirs));
+                }
+            }
+            StdinSpec::Bytes(_) if cmd.stdin_nonblock => {
+                use std::os::unix::io::FromRawFd;
+                let mut fds = [0i32; 2];
+                unsafe {
+                    assert_eq!(libc::pipe2(fds.as_mut_ptr(), libc::O_CLOEXEC), 0);
+                    let fl = libc::fcntl(fds[0], libc::F_GETFL);
+                    libc::fcntl(fds[0], libc::F_SETFL, fl | libc::O_NONBLOCK);
+                    c.stdin(Stdio::from_raw_fd(fds[0]));
+                    NB_STDIN_WRITE_END.with(|w| w.set(fds[1]));
+                }
             }
             StdinSpec::Bytes(_) => {
                 c.stdin(Stdio::piped());
@@ -326,8 +375,18 @@ pub fn run_limit(cmd: &Cmd, cwd: &Path, limit: Duration) -> Out {
     }
     let stdin_thread = if pty_stdin {
         None
+    } else if cmd.stdin_socket_reset.is_some() {
+        None
     } else if let StdinSpec::Bytes(b) = &cmd.stdin {
-        let mut si = child.stdin.take().unwrap();
+        let nbw = NB_STDIN_WRITE_END.with(|w| w.replace(-1));
+        let mut si: std::fs::File = if nbw >= 0 {
+            use std::os::unix::io::FromRawFd;
+            unsafe { std::fs::File::from_raw_fd(nbw) }
+        } else {
+            use std::os::unix::io::{FromRawFd, IntoRawFd};
+            unsafe { std::fs::File::from_raw_fd(child.stdin.take().unwrap().into_raw_fd()) }
+        };
+        let nonblock_pause = cmd.stdin_nonblock;
         let b = b.clone();
         let mut splits = cmd.stdin_splits.clone();
         splits.retain(|&x| x > 0 && x < b.len());
@@ -351,7 +410,8 @@ pub fn run_limit(cmd: &Cmd, cwd: &Path, limit: Duration) -> Out {
                     }
                     std::thread::sleep(Duration::from_micros(200));
                 }
-                std::thread::sleep(Duration::from_millis(3));
+                // with a non-blocking stdin the pause has to be long enough for the child to find the pipe empty
+                std::thread::sleep(Duration::from_millis(if nonblock_pause { 150 } else { 3 }));
             }
             let _ = si.write_all(&b[at..]);
         }))
@@ -426,6 +486,12 @@ pub fn run_limit(cmd: &Cmd, cwd: &Path, limit: Duration) -> Out {
     // the parent kept its copy of the slave open while the child ran (like the shell that owns a real
     // terminal: otherwise a child that does not use the tty as stdin/stdout would get SIGHUP); closing it now
     // lets the master reader see end-of-file
+    let so_ours = SOCK_TO_CLOSE.with(|c| c.replace(-1));
+    if so_ours >= 0 {
+        unsafe {
+            libc::close(so_ours);
+        }
+    }
     let sl = PTY_SLAVE_TO_CLOSE.with(|c| c.replace(-1));
     if sl >= 0 {
         unsafe {
